@@ -860,8 +860,8 @@ where
 					self.doctest_mode,
 				);
 				match res {
-					Ok(s) => Ok(s.unwrap()),
-					Err(_) => Ok(slate),
+					Ok(Some(s)) => Ok(s),
+					_ => Ok(slate),
 				}
 			}
 			None => Ok(slate),
